@@ -491,6 +491,41 @@ def run(facts, tier, ctx):
     sr.require_floor(8, "LocalKey::with sites")
     out.append(sr)
 
+    # -------------------------------------------------------------- RECYCLE
+    # entries taken out of a keyed cache (eviction) are dropped, never reused as a buffer: a recycled entry still holds the
+    # evicted value, and `resize` keeps it.  First-access order cannot see this (the stale elements are read by a later
+    # call, through the cache), so the eviction itself is the reported construct unless its result is unused.
+    rc = RuleResult("RECYCLE", "no entry removed from a keyed cache is used again (evicted entries are dropped)")
+    EVICT = {"pop_first", "pop_last", "remove", "remove_entry", "take", "split_off", "drain", "extract_if", "pop",
+             "swap_remove", "first_entry", "last_entry"}
+    nmap = 0
+    for (b, bi, st, outer, inner) in sites:
+        if st is None or inner is None or not any(stor.get(st, "").startswith(m) for m in MAP_TYPES):
+            continue
+        nmap += 1
+        reach = facts.closure_of_calls([inner])
+        found = False
+        for rb in reach:
+            for rbi, t in rb.calls():
+                fn = t.get("fn") or {}
+                if fn.get("name") in EVICT and any(str(fn.get("self_ty") or fn.get("full") or "").startswith(mt.rstrip("<"))
+                                                   or mt.split("::")[-1].rstrip("<") in str(fn.get("full") or "")
+                                                   for mt in MAP_TYPES):
+                    dl = t["dst"]["l"]
+                    uses = rb.uses_of_local(dl) if not t["dst"]["p"] else [(rbi, "term")]
+                    if uses:
+                        found = True
+                        rc.fail(Finding("RECYCLE", rb.id, "evicted-entry-reused:%s" % st.split("::")[-1], 0, rb.loc(rbi, "term"),
+                                        "%s takes an entry out of the keyed cache %s with `%s` and uses it afterwards (%s): a "
+                                        "recycled entry still holds the value it cached, `resize` keeps that content, and "
+                                        "whatever is not overwritten becomes part of another key's entry - the result then "
+                                        "depends on which entries this thread happened to cache before"
+                                        % (rb.id, st, fn.get("name"), rb.loc(uses[0][0], uses[0][1]))))
+        if not found:
+            rc.ok({"storage": st, "verdict": "no entry is removed and reused"})
+    rc.require_floor(1, "keyed caches")
+    out.append(rc)
+
     # ---------------------------------------------------------- PLAIN-STATE
     ps = RuleResult("PLAIN-STATE", "a reusable storage holding a plain value (no growable buffer) is overwritten as a whole "
                     "before it is read in every call")
